@@ -466,6 +466,8 @@ def run_whole(trigger, at, su_dur, su_fails, cu_dur, handler_dur, peering=False,
         orig_dt, orig_iso = progression.datetime, progression.iso8601
         orig_choice = credentials.random
         orig_main_thread = threading.main_thread
+        orig_prandom = peering_mod.random
+        peering_mod.random = type('R', (), {'randint': staticmethod(lambda a, b: a)})     # the jitter of the keep-alive period: fixed
         credentials.random = type('R', (), {'choice': staticmethod(lambda seq: seq[0])})
         threading.main_thread = lambda: None      # OS signal handlers are not installed (a virtual loop has none): the "not main thread" branch
         try:
@@ -501,6 +503,7 @@ def run_whole(trigger, at, su_dur, su_fails, cu_dur, handler_dur, peering=False,
             await cancel_all_others()
         finally:
             credentials.random = orig_choice
+            peering_mod.random = orig_prandom
             threading.main_thread = orig_main_thread
     with shimdt.installed(progression):
         loop.run(main(), max_steps=40_000)
